@@ -275,8 +275,11 @@ package core
 //@   ensures [C11:public-stream-starts-at-the-requested-round] r == ite(p.PublicRandRequest == nil, 0, p.PublicRandRequest.Round)
 
 //@ func (*BeaconProcess).PublicRandStream(bp, req, stream) (err)
-//@   props C11
+//@   props C11 C12
 //@   requires [C11] bp.log != nil && req != nil
+// the stream routine returns only when the client goes away: no lock of the chain process may be held across it (a state
+// writer queued behind a pinned read lock blocks every later reader: partials, public requests, sync)
+//@   call SyncChain#0: assert [C12:the-public-stream-runs-without-holding-the-process-state-lock] !held(bp.state) && !rheld(bp.state)
 //@   call SyncChain#0: assert [C11:public-stream-uses-this-chains-store-the-request-and-the-clients-stream] typeis(arg2, "*proxyRequest") && as(arg2, "*proxyRequest").PublicRandRequest == req && typeis(arg3, "*proxyStream") && as(arg3, "*proxyStream").Public_PublicRandStreamServer == stream && typeis(arg1, "*github.com/drand/drand/v2/internal/chain/beacon.chainStore") && as(arg1, "*github.com/drand/drand/v2/internal/chain/beacon.chainStore") == bp.beacon.chain
 
 // ---- C19: the control endpoints that name a chain hand the request to exactly the process its metadata names ---------------
@@ -334,9 +337,10 @@ package core
 //@   props C14
 //@   flags lockcheck nopanic=C14 recovered
 //@ func (*BeaconProcess).SyncChain(bp, req, stream) (err)
-//@   props C14
+//@   props C14 C12
 //@   flags lockcheck nopanic=C14 recovered
 //@   requires [wf] bp.log != nil
+//@   call SyncChain#0: assert [C12:the-sync-stream-runs-without-holding-the-process-state-lock] !held(bp.state) && !rheld(bp.state)
 //@ func (*BeaconProcess).GetIdentity(bp, ctx, in) (res, err)
 //@   props C14
 //@   flags lockcheck nopanic=C14 recovered
